@@ -23,6 +23,25 @@ REGISTRATION = {
 
 MODULES = ["OllamaVerif.Properties.C17"]
 THEOREMS = [
+    "OllamaVerif.C17.generate_equiv",
+    "OllamaVerif.C17.generate_resplit",
+    "OllamaVerif.C17.generate_error",
+    "OllamaVerif.C17.chat_equiv",
+    "OllamaVerif.C17.chat_resplit",
+    "OllamaVerif.C17.chat_error",
+    "OllamaVerif.C17.tools_equiv_partial",
+    "OllamaVerif.C17.tools_index",
+    "OllamaVerif.C17.one_final_generate",
+    "OllamaVerif.C17.one_final_chat",
+    "OllamaVerif.C17.openai_once_equiv",
+    "OllamaVerif.C17.openai_chat_stream_equiv",
+    "OllamaVerif.C17.openai_cmpl_stream_equiv",
+    "OllamaVerif.C17.openai_stream_one_done",
+    "OllamaVerif.C17.openai_stream_failure_swallowed",
+    "OllamaVerif.C17.F17a_split_loses_call",
+    "OllamaVerif.C17.F17b_index_mismatch",
+    "OllamaVerif.C17.F17c_openai_stream_error_swallowed",
+    "OllamaVerif.C17.F17d_silent_end_no_final",
 ]
 OVERLAY = {"server/zz_verif_c17_test.go": "server/zz_verif_c17_test.go"}
 
